@@ -16,6 +16,7 @@ CONSTANTS
   LockNames <- MC_LockNames
   CallerIds <- MC_CallerIds
   Files <- MC_Files
+  WithEdits = TRUE
   WithReload = FALSE
   Lookups = FALSE
   Phased = TRUE
